@@ -19,7 +19,7 @@ ASSUMPTIONS = [
     'Base58Check obligations: change_base(.,58,256) / base58encode are an inverse pair of uninterpreted symbols (the decoded byte string is arbitrary); the checksum hash is uninterpreted and collision-free',
     'characters are arbitrary 8-bit code points',
 ]
-BOUNDS = {'quick': "bech32 decoder: every string 'bc1' + 11 arbitrary characters and every string of 8 arbitrary characters; encoder: every program of 20 and 32 bytes for witness versions 0, 1, 16 and every 2..4-byte program for versions 1..16, hrp bc/tb/ltc; Base58Check: every decoded byte string of 24..26 bytes",
+BOUNDS = {'quick': "bech32 decoder: every string 'bc1' + 11 or 14 arbitrary characters and every string of 8 arbitrary characters; encoder: every program of 20 and 32 bytes for witness versions 0, 1, 16 and every 2..4-byte program for versions 1..16, hrp bc/tb/ltc; Base58Check: every decoded byte string of 24..26 bytes",
           'thorough': "decoder: 'bc1' + 11..14 characters, 'tb1' + 11, 9 fully arbitrary characters; encoder: all witness versions 0..16"}
 OUTSIDE = 'the base58 digit arithmetic itself (change_base digit loops fork on every character); bech32 strings longer than the bound with fully symbolic content; WIF / extended-key / BIP38 envelopes (see C12, C15)'
 
@@ -82,6 +82,11 @@ def h_polymod_step(ex):
 
 def setup(ex):
     E, K = _mods()
+    # the BCH checksum function is abstracted as ONE uninterpreted fold shared by the library and the reference (the
+    # step lemma + induction identify the library's loop with the reference fold); what is checked is which values are
+    # fed to it and how its result is used
+    fold = stubs.FoldStub('polymod', 30)
+    rb.POLYMOD[0] = fold
     shims.install(E, int=shims.IntShim, bytes=shims.BytesShim, ord=shims.ord_shim, chr=shims.chr_shim,
                   _bech32_polymod=rb.polymod)
     tab = dict(E.code_strings)
@@ -89,7 +94,7 @@ def setup(ex):
     shims.install(E, code_strings=tab, _array_to_codestring=_array_to_codestring_sym(E))
     _H.clear()
     _H['d'] = stubs.HashStub('dsha', 32)
-    ex.axiom_sources = [_H['d']]
+    ex.axiom_sources = [_H['d'], fold]
 
 
 _H = {}
@@ -151,20 +156,23 @@ def h_bech32_encode(ex, hrp, witvers, lens):
         ex.check(False, 'encoder-accepts-valid-program', known=kf('C11-bech32-encoder-hex-decodes-program', _all_hex(prog)))
         return
     k_hex = kf('C11-bech32-encoder-hex-decodes-program', _all_hex(prog))
-    # the produced string, read by the independent BIP173/350 decoder, is (hrp, witver, program)
-    ref = rb.decode_segwit(SStr.lift(addr) if not ex.concrete else addr)
-    if ref is None:
-        ex.check(False, 'encoder-output-is-valid-bip173', known=k_hex)
-        return
-    rh, rw, rp = ref
-    ex.check(s_and(len(rh) == len(hrp), *[a == ord(b) for a, b in zip(rh, hrp)]), 'encoder-hrp', known=k_hex)
-    ex.check(rw == witver, 'encoder-witness-version', known=k_hex)
-    ex.check(len(rp) == ln and s_and(*[a == b for a, b in zip(rp, prog)]), 'encoder-program', known=k_hex)
-    ex.check(s_and(*[SStr([c]).lower() == SStr([c]) for c in SStr.lift(addr).c]), 'encoder-lower-case')
-    back = _lib_decode(E, addr)
-    ok = back is not None and len(back) == ln + 2 and s_and(back[0] == (witver + 0x50 if witver else 0), back[1] == ln,
-                                                            *[a == b for a, b in zip(back[2:], prog)])
-    ex.check(ok, 'decode-of-encode-identity', known=k_hex)
+    want = rb.encode_segwit(hrp, witver, [b for b in prog])
+    got = SStr.lift(addr)
+    ex.check(len(got.c) == len(want) and s_and(*[(a == b) for a, b in zip(got.c, want)]), 'encoder-bip173', known=k_hex)
+
+
+def h_ref_checksum_lemma(ex, witver, ndata):
+    """lemma about the REFERENCE fold (concrete BCH formula, no abstraction): the checksum the BIP173/350 encoder
+    appends makes the BIP173/350 verification succeed - polymod(hrp_exp + data + checksum(data)) == const for every
+    data part.  Together with 'encoder == reference' and 'decoder == reference' this gives decode(encode(x)) == x."""
+    rb.POLYMOD[0] = None
+    data = [witver] + [ex.int('d%d' % i, 0, 31) for i in range(ndata)]
+    hrp = 'bc'
+    exp = [ord(c) >> 5 for c in hrp] + [0] + [ord(c) & 31 for c in hrp]
+    const = 1 if witver == 0 else rb.BECH32M
+    pm = rb.polymod_formula(exp + data + [0, 0, 0, 0, 0, 0]) ^ const
+    chk = [(pm >> (5 * (5 - i))) & 31 for i in range(6)]
+    ex.check(rb.polymod_formula(exp + data + chk) == const, 'reference-checksum-verifies')
 
 
 def _all_hex(b):
@@ -202,12 +210,14 @@ def h_base58check_addr(ex):
 def jobs(tier):
     q = tier == 'quick'
     J = [Job('polymod_step', h_polymod_step, W=48, setup=setup_step)]
-    for (pre, n) in ([('bc1', 11), ('', 8)] if q else [('bc1', 11), ('bc1', 12), ('bc1', 14), ('tb1', 11), ('', 8), ('', 9)]):
+    for (pre, n) in ([('bc1', 11), ('bc1', 14), ('', 8)] if q else [('bc1', 11), ('bc1', 12), ('bc1', 14), ('bc1', 17), ('tb1', 14), ('ltc1', 14), ('', 8), ('', 9), ('', 10)]):
         j = Job('bech32_decode_%s%d' % (pre, n), h_bech32_decode, W=48, setup=setup, params=dict(prefix=pre, nsym=n), budget_s=6000)
         j.cost = 100
         J.append(j)
     for hrp in ('bc', 'tb', 'ltc'):
-        J.append(Job('bech32_encode_%s' % hrp, h_bech32_encode, W=48, setup=setup, budget_s=3000, optimistic=True,
+        J.append(Job('bech32_encode_%s' % hrp, h_bech32_encode, W=48, setup=setup, budget_s=3000,
                      params=dict(hrp=hrp, witvers=[0, 1, 16] if q else list(range(17)), lens=[2, 3, 4, 20, 32] if hrp == 'bc' else [20, 32])))
     J.append(Job('base58check_addr', h_base58check_addr, W=48, setup=setup))
+    for (wv, nd) in [(0, 32), (0, 52), (1, 52), (16, 4)]:
+        J.append(Job('ref_checksum_lemma_v%d_%d' % (wv, nd), h_ref_checksum_lemma, W=48, setup=setup_step, params=dict(witver=wv, ndata=nd), budget_s=1500))
     return J
